@@ -450,6 +450,19 @@ def gen_hist(tier, rng):
         else:
             prog.append(["run", rng.choice(sorted(inited))] + rf())
         out.append(with_prog(base, prog))
+    # the empty query list: a collection without rules still passes through every finalizer of the composed pipeline, once,
+    # in order (seed C14s1: finalize() returned an empty list as it was)
+    def runs_initialised(c):
+        """every convert_rule()+finalize() run happens on a backend whose pipeline was initialised before (with no rule to
+        convert, nothing else would set last_processing_pipeline, which the harness reads)"""
+        seen = set()
+        for o in c["prog"]:
+            if o[0] in ("init", "convert"): seen.add(o[1])
+            elif o[0] == "run" and o[1] not in seen: return False
+        return True
+    for c in [c for c in out if runs_initialised(c)][::9 if quick else 6]:
+        d = copy.deepcopy(c); d["rules"] = []
+        out.append(d)
     # every concat finalizer after the first multiplies the output length: keep histories whose pipelines stay small
     return [c for c in out if max_fins(c) <= MAXFIN + 1]
 
